@@ -49,6 +49,11 @@ def with_resize(sc, rnd):
     reuse = 0
     # ... and then a second node is dragged along the same axis, either way, on that same instance
     second = (-1, 0, 0)
+    if rnd.random() < 0.4:
+        # a second drag with a NEW instance per move (what ColaTopologyAddon does every iteration, where all nodes move):
+        # another node, |steps2| moves by d2 along x (steps2 > 0) or y (steps2 < 0)
+        other = rnd.choice([k for k in range(len(nodes)) if k != drag])
+        second = (other, rnd.choice([1, -1]) * rnd.randint(4, 10), rnd.choice([6, -6, 5, -5]))
     if rnd.random() < 0.45:
         return sc + (-1, 0, 0, reuse) + second
     rz = drag if rnd.random() < 0.6 else rnd.randrange(len(nodes))
@@ -104,6 +109,28 @@ def abutting_scene(rnd):
     return nodes, edges, drag, steps, dx, dy
 
 
+def squeezed_between_abutting_nodes(states):
+    """naming only (known-finding fingerprint): in the last recorded state some path runs from a corner of one node to a corner of
+    another node along a line that carries a side of both, the two nodes lying on opposite sides of it (zero-width gap)"""
+    if not states:
+        return False
+    st = states[-1]
+    rects = st['nodes']
+    for path in st['paths']:
+        for p, q in zip(path, path[1:]):
+            if p[0] == q[0] or p[1] == 4 or q[1] == 4:
+                continue
+            a, b = rects[p[0]], rects[q[0]]
+            for ax in (0, 1):                      # ax = 1: horizontal line y = const; ax = 0: vertical line x = const
+                c = p[2 + ax]
+                if c != q[2 + ax]:
+                    continue
+                lo_a, hi_a, lo_b, hi_b = a[ax], a[ax + 2], b[ax], b[ax + 2]
+                if (hi_a == c and lo_b == c) or (hi_b == c and lo_a == c):
+                    return True
+    return False
+
+
 def main(tier):
     ev = V.Evidence(PID, tier)
     vd = V.Verdict(PID, ev)
@@ -139,13 +166,16 @@ def main(tier):
                 m = re.search(r'expression: (.*?)(\n| \||$)', what)
                 ml = re.search(r'at line (\d+) of \S*/(\w+\.cpp)', what)
                 key = ('assertion:' + re.sub(r'[^A-Za-z0-9_>!=<.()-]+', '', m.group(1))[:50] + ('@' + ml.group(2) if ml else '')) if m else 'exception:' + what[:40]
+                if m and squeezed_between_abutting_nodes(x['states']):
+                    fn = re.search(r'in: [^\n]*?(\w+)\(', what)
+                    key = 'topology:edge-in-the-zero-width-gap-between-abutting-nodes:assertion-in-' + (fn.group(1) if fn else 'unknown')
             nodes, edges, drag, steps, dx, dy, rz, rw, rh, reuse, drag2, steps2, d2 = scenes[i - 1]
             vd.violation(key, '%s %s nodes(x,y,w,h)=%s edges=%s drag=%d by (%d,%d) x%d resize=%s' % (t, what[:150].replace('\n', ' '), nodes, edges, drag, dx, dy, steps, (rz, rw, rh) if rz >= 0 else None),
                          {'nodes': nodes, 'edges': edges, 'drag': drag, 'steps': steps, 'dx': dx, 'dy': dy, 'resize': [rz, rw, rh], 'one_instance': reuse, 'second_drag': [drag2, steps2, d2], 'what': what})
     ev.cov['evaluations'] = sum(len(x['states']) for x in data['recs'])
     ev.cov['distinct_nontrivial'] = nontriv
     ev.cov['traces_validated_against_impl'] = len(data['recs'])
-    ev.cov['rule'] = ('runs = jittered grids of 4..9 non-overlapping nodes, straight centre-to-centre edges that clear all other nodes, one node dragged 6..14 steps through the others under '
+    ev.cov['rule'] = ('runs = jittered grids of 4..9 non-overlapping nodes, straight centre-to-centre edges that clear all other nodes, one node dragged 6..14 steps through the others (40%: then a second node dragged 4..10 steps, a new instance per move) under '
                       'ConstrainedFDLayout + ColaTopologyAddon with overlap avoidance; every state after every step is recorded; non-trivial = some edge acquired a bend')
     ev.sample({'scene': {'nodes': scenes[0][0], 'edges': scenes[0][1], 'drag': scenes[0][2]}, 'first_state': data['recs'][0]['states'][0]})
     ev.assumptions = ['lattice 1/16, nodes shrunk by 2 units for the interior test', 'motion between recorded steps is not observed; the side-of-node parity is compared between consecutive recorded states']
